@@ -1,8 +1,8 @@
-"""The boolean conditions of act_heart_beat and the step sequences of the restart handlers (src/model.rs), translated to a
+"""The boolean conditions of handle_select1_or_exit0 (src/model.rs), translated to a
 small expression type.  Props/C01 / C14 prove (by cases over the atoms) that each is the condition the Session model uses, so a
 change of a condition in the source changes the generated definition and a theorem stops checking."""
 import os, re
-NAME = "HeartBeat"
+NAME = "Select1"
 PROPS = ["C01", "C14"]
 
 # Rust atoms -> Lean atoms
@@ -115,41 +115,20 @@ def one(pattern, text, what):
 
 def extract(repo):
     src = open(os.path.join(repo, "src", "model.rs")).read()
-    hb = strip_verif(body_of(src, "fn act_heart_beat(&mut self"))
+    s1 = strip_verif(body_of(src, "fn handle_select1_or_exit0(&mut self"))
     defs = []
-    # act_heart_beat
-    defs.append(("hbProcessed", one(r"let processed = ([^;]+);", hb, "`let processed =` in act_heart_beat")))
-    defs.append(("hbClearIfNotNull", one(r"ClearStrategy::ClearIfNotNull => \{\s*if ([^{]+)\{", hb, "ClearIfNotNull condition")))
-    defs.append(("hbRestart", one(r"if ([^{]+)\{\s*self\.restart_matcher\(\);", hb, "restart condition")))
-    defs.append(("hbArm", one(r"if ([^{]+)\{\s*let tx = self\.tx\.clone\(\);\s*let hb_timer_guard", hb, "timer condition")))
-    # the order of the reads and of the three actions (harvest, restart, arm) in act_heart_beat
-    order = [hb.index(x) for x in ("let reader_stopped", "let matcher_stopped", "if matcher_stopped {", "let items_consumed",
-                                   "let processed", "self.restart_matcher()", "schedule_with_delay")]
-    if order != sorted(order):
-        raise Exception("heartbeat: act_heart_beat no longer reads is_done, stopped, (harvest), num_not_taken and then restarts / arms in that order")
-    if hb.count("is_done") != 1:
-        raise Exception("heartbeat: act_heart_beat reads is_done %d times" % hb.count("is_done"))
-    # the order of the steps of the three handlers that restart the matching (on_query_change, act_rotate_mode, on_cmd_query_change)
-    STEPS = [("killReader", r"self\.reader_control\.take\(\)\s*\{\s*ctrl\.kill\(\);"),
-             ("killMatcher", r"self\.matcher_control\.take\(\)\s*\{\s*ctrl\.kill\(\);"),
-             ("clearAll", r"env\.clear_selection = ClearStrategy::Clear;"),
-             ("clearIfNotNull", r"env\.clear_selection = ClearStrategy::ClearIfNotNull;"),
-             ("resetPool", r"self\.item_pool\.reset\(\);"),
-             ("clearPool", r"self\.item_pool\.clear\(\);"),
-             ("zeroOptions", r"self\.num_options = 0;"),
-             ("startReader", r"self\.reader_control\.replace\(self\.reader\.run\("),
-             ("restartMatcher", r"self\.restart_matcher\(\);")]
-    handlers = []
-    for lean_name, sig in (("onQueryChange", "fn on_query_change(&mut self"), ("rotateMode", "fn act_rotate_mode(&mut self"),
-                           ("onCmdQueryChange", "fn on_cmd_query_change(&mut self")):
-        body = strip_verif(body_of(src, sig))
-        found = []
-        for name, pat in STEPS:
-            for m in re.finditer(pat, body):
-                found.append((m.start(), name))
-        found.sort()
-        handlers.append((lean_name, [n for _, n in found]))
-    out = ["namespace SkimModel.Generated.HeartBeat", "",
+    # handle_select1_or_exit0
+    defs.append(("s1Skip", one(r"^\{\s*if ([^{]+)\{\s*return;", s1, "early return of handle_select1_or_exit0")))
+    defs.append(("s1MatcherStopped", one(r"let matcher_stopped = ([^;]+);", s1, "`let matcher_stopped =`")))
+    defs.append(("s1Processed", one(r"let processed = ([^;]+);", s1, "`let processed =` in handle_select1_or_exit0")))
+    conds = re.findall(r"(?:if|else if) (num_matched == [01] && self\.\w+) \{", s1)
+    if len(conds) != 2:
+        raise Exception("heartbeat: expected the accept and the abort condition, found %r" % (conds,))
+    defs.append(("s1Accept", conds[0]))
+    defs.append(("s1Abort", conds[1]))
+    if not re.search(r"if processed \{", s1):
+        raise Exception("heartbeat: the decisions are no longer guarded by `if processed`")
+    out = ["namespace SkimModel.Generated.Select1", "",
            "/-- the values the conditions of the heart-beat handler are made of -/",
            "inductive Atom | rs | ic | ms | processed | mcNone | mcSome | nce | resultEmpty | select1 | exit0 | sync | one | zero",
            "  deriving DecidableEq, Repr", "",
@@ -161,12 +140,7 @@ def extract(repo):
         out.append("/-- `%s` -/" % rust)
         out.append("def %s : BExp := %s" % (name, parse(rust)))
         out.append("")
-    out += ["/-- the steps of a handler that restarts the matching, in source order -/",
-            "inductive HStep | killReader | killMatcher | clearAll | clearIfNotNull | resetPool | clearPool | zeroOptions | startReader | restartMatcher",
-            "  deriving DecidableEq, Repr", ""]
-    for lean_name, steps in handlers:
-        out.append("def %s : List HStep := [%s]" % (lean_name, ", ".join("." + x for x in steps)))
-    out += ["", "end SkimModel.Generated.HeartBeat", ""]
+    out += ["", "end SkimModel.Generated.Select1", ""]
     return "\n".join(out)
 
 
